@@ -125,7 +125,12 @@ func (ex *Exec) freshVal(st *State, t types.Type, hint string) Val {
 		}
 		return ex.freshTerm(hint, s, signed)
 	case *types.Pointer:
-		return &Ptr{Ref: ex.freshTerm(hint, SRef, false), Root: u.Elem()}
+		r := ex.freshTerm(hint, SRef, false)
+		if st != nil {
+			// pre-existing objects have non-negative references; objects allocated on a path are negative
+			st.Assume(app(SBool, ">=", r, IntConst(0)))
+		}
+		return &Ptr{Ref: r, Root: u.Elem()}
 	case *types.Struct:
 		sv := &StructV{T: t, F: make([]Val, u.NumFields())}
 		for i := 0; i < u.NumFields(); i++ {
@@ -140,6 +145,7 @@ func (ex *Exec) freshVal(st *State, t types.Type, hint string) Val {
 		if st != nil {
 			st.Assume(app(SBool, "bvsge", sl.Len, BVInt(0, 64, true)))
 			st.Assume(app(SBool, "bvsle", sl.Len, BVInt(1<<40, 64, true)))
+			st.Assume(app(SBool, ">=", sl.Back, IntConst(0)))
 		}
 		return sl
 	case *types.Array:
